@@ -135,6 +135,10 @@ def hash_mutable(obj) -> int:
     if isinstance(obj, slice):
         return hash((obj.start, obj.stop, obj.step))
 
+    if isinstance(obj, numbers.Number):
+        # numbers are not hashed directly since hash(-1) == hash(-2) in CPython
+        return hash(("number", repr(obj)))
+
     try:
         # try using the internal hash function
         return hash(obj)
